@@ -1,3 +1,6 @@
+import Hannibal.Props.C03QCurrent
 import Hannibal.Props.C03Current
 #print axioms Hannibal.C03_holds
 #print axioms Hannibal.C03_current
+#print axioms Hannibal.C03q_holds
+#print axioms Hannibal.C03q_current
